@@ -22,7 +22,7 @@ TRUSTED = ['scipy.stats.t.cdf enters the theorems as an arbitrary symmetric dist
            'ranksum tests (scipy.stats.wilcoxon) are covered by range / symmetry / unit-diagonal supporting tests only',
            'get_ci / get_errorbars are not modelled']
 ASSUMPTIONS = ['exact-arithmetic model compared under rtol 1e-9 (1e-6 for inverted t statistics)']
-KINDS = ['extract', 'extract', 'result', 'result', 'result', 'boot', 'fixed']
+KINDS = ['extract', 'extract', 'result', 'result', 'result', 'boot', 'fixed', 'evalboot']
 
 
 def psd(rng, n, scale=16):
@@ -95,6 +95,17 @@ def generate(rng, tier):
             out.append(dict(kind='result:' + cv, call='result', M=M, cv=cv, shape=list(shape), ev8=ev, nan_samples=nan_samples,
                             nan_entries=nan_entries, var=var, n_rdm=nr, n_pattern=npat, dof=rng.randint(1, 30), nc_shape=list(ncs), nc8=nc8,
                             perm=rng.sample(range(M), M), seed=rng.randrange(10 ** 6)))
+        elif kind == 'evalboot':
+            # results of the bootstrap evaluation routines themselves: their reported variances are the documented n/(n-1)
+            # contrasts of the stored covariance, n the number of resampled units -- also with more RDMs than conditions
+            # (seeded change C06-m8)
+            nc = rng.choice([4, 5])
+            P = nc * (nc - 1) // 2
+            nrd = rng.choice([3, 6, 7, 9])
+            out.append(dict(kind='evalboot', call='evalboot', M=M, n_cond=nc, routine=rng.choice(['rdm', 'rdm', 'pattern', 'both']),
+                            data8=[[rng.randint(1, 40) for _ in range(P)] for _ in range(nrd)], N=rng.randint(6, 10),
+                            models8=[[rng.randint(1, 40) for _ in range(P)] for _ in range(M)], boot_nc=rng.random() < 0.6,
+                            seed=rng.randrange(10 ** 6)))
         elif kind == 'boot':
             N = rng.randint(2, 12)
             ev = [[rng.choice([rng.randint(-6, 12), rng.randint(-2, 2)]) for _ in range(M)] for _ in range(N)]
@@ -223,6 +234,20 @@ def run(c):
             nc[:, c['nan_samples']] = np.nan
         pp, pz, pn = all_tests(ev.copy(), nc.copy(), 'bootstrap')
         return dict(p_pair=np.asarray(pp, float).tolist(), p_zero=fl(pz), p_noise=fl(pn), nc_lower=fl(nc[0]))
+    if c['call'] == 'evalboot':
+        import rsatoolbox
+        from rsatoolbox.rdm import RDMs
+        from rsatoolbox.model import ModelFixed
+        D = RDMs(np.array(c['data8'], float) / 8)
+        models = [ModelFixed(f'm{i}', np.array(v, float) / 8) for i, v in enumerate(c['models8'])]
+        f = {'rdm': rsatoolbox.inference.eval_bootstrap_rdm, 'pattern': rsatoolbox.inference.eval_bootstrap_pattern,
+             'both': rsatoolbox.inference.eval_bootstrap}[c['routine']]
+        np.random.seed(c['seed'])
+        res = f(models, D, method='cosine', N=c['N'], boot_noise_ceil=c['boot_nc'])
+        o = result_obs(res)
+        o['variances'] = np.asarray(res.variances, float).tolist()
+        o['n_rdm_data'], o['n_cond_data'] = int(D.n_rdm), int(D.n_cond)
+        return o
     # fixed
     import rsatoolbox
     from rsatoolbox.rdm import RDMs
@@ -281,7 +306,7 @@ def implied(p, dof, two_sided):
 
 
 def to_coq(c, o):
-    if 'error' in o:
+    if 'error' in o or c['call'] == 'evalboot':
         return None
     if c['call'] == 'extract':
         if any(x is None for x in o['mv'] + o['dv']) or any(math.isnan(x) for r in o['ncv'] for x in r):
@@ -338,6 +363,30 @@ def oracle(c, o):
         return None
     if o.get('entry_points_disagree'):
         return o['entry_points_disagree']
+    if c['call'] == 'evalboot':
+        V = np.array(o['variances'], float)
+        if V.ndim != 2 or np.isnan(V).any():
+            return None
+        M = c['M']
+        n = {'rdm': o['n_rdm_data'], 'pattern': o['n_cond_data'], 'both': min(o['n_rdm_data'], o['n_cond_data'])}[c['routine']]
+        fac = n / (n - 1)
+        want_model = fac * np.diag(V)[:M]
+        want_diff = [fac * (V[i, i] + V[j, j] - 2 * V[i, j]) for i in range(M) for j in range(i + 1, M)]
+        got_model = np.array([np.nan if x is None else x for x in o['model_var']], float)
+        got_diff = np.array([np.nan if x is None else x for x in o['diff_var']], float)
+        if not np.allclose(got_model, want_model, rtol=1e-9, atol=1e-15):
+            return (f"eval_bootstrap_{c['routine']}: model variances {got_model.tolist()} are not n/(n-1) = {n}/{n - 1} times the diagonal "
+                    f"of the stored covariance {want_model.tolist()}")
+        if M > 1 and not np.allclose(got_diff, want_diff, rtol=1e-9, atol=1e-15):
+            return (f"eval_bootstrap_{c['routine']}: pairwise-difference variances {got_diff.tolist()} are not {n}/{n - 1} * "
+                    f"(var_i + var_j - 2 cov_ij) = {want_diff}")
+        if V.shape[0] == M + 2:
+            got_nc = np.array([np.nan if x is None else x for x in o['nc_var']], float).reshape(-1, 2)
+            want_nc = np.array([[fac * (V[i, i] - 2 * V[i, M + k] + V[M + k, M + k]) for k in range(2)] for i in range(M)])
+            if not np.allclose(got_nc, want_nc, rtol=1e-9, atol=1e-15):
+                return (f"eval_bootstrap_{c['routine']}: model-versus-ceiling variances {got_nc.tolist()} are not the {n}/{n - 1} contrasts "
+                        f"{want_nc.tolist()} of the stored covariance")
+        return None
     for k in ('means_error', 'p_pair_error', 'p_zero_error', 'p_noise_error'):
         if k in o:
             return f'{k}: {o[k]}'
